@@ -40,13 +40,16 @@ func BuildParsingTable(G *grammar.CFG) (*ParsingTable, error) {
 	 *      then set M[A,a] to error (can be represented by an empty entry in the table).
 	 */
 
-	// A special symbol used to indicate the end of a string.
-	G.Terminals.Add(grammar.Endmarker)
-
 	FIRST := G.ComputeFIRST()
 	FOLLOW := G.ComputeFOLLOW(FIRST)
 
+	// A special symbol used to indicate the end of a string.
+	// It gets a column in the table; the grammar of the caller is not modified.
 	terminals := G.OrderTerminals()
+	if !G.Terminals.Contains(grammar.Endmarker) {
+		terminals = append(terminals, grammar.Endmarker)
+	}
+
 	_, _, nonTerminals := G.OrderNonTerminals()
 	table := NewParsingTable(terminals, nonTerminals)
 
